@@ -917,7 +917,15 @@ func (ctx *RenderContext) EvaluateExpression(node Node) (interface{}, error) {
 				}
 			}
 
-			// Fallback - try calling it like a regular function
+			// Fallback (this is what _self.name(...) takes): a macro of that name first, as in a
+			// plain name(...) call, then a regular function
+			if macro, ok := ctx.GetMacro(n.name); ok {
+				if macroNode, ok := macro.(*MacroNode); ok {
+					return func(w io.Writer) error {
+						return macroNode.CallMacro(w, ctx, args...)
+					}, nil
+				}
+			}
 			if IsDebugEnabled() && debugger.level >= DebugVerbose {
 				LogVerbose("Fallback - calling '%s' as a regular function", n.name)
 			}
